@@ -3,6 +3,8 @@ import PybtexModel.Drv.C06
 import PybtexModel.Drv.C08
 import PybtexModel.Drv.DbJson
 import PybtexModel.Model.Template
+import PybtexModel.Model.Backends
+import PybtexModel.Spec.PyStyle
 open Lean
 namespace Pybtex.Drv.C07
 open Pybtex.Tmpl
@@ -50,29 +52,61 @@ def parseSorting (s : String) : Except String Sorting :=
 def parseLabels (s : String) : Except String Labels :=
   match s with | "number" => pure .number | "alpha" => pure .alpha | _ => throw "labels"
 
-/-- `style.format_bibliography(db, citations)` -/
-def pystyle (j : Json) : Except String Json := do
-  let es ← (← getArr j "entries").mapM C06.parseEntry
-  let items ← (← getArr j "items").mapM fun it => do
+/-- the codec table `[[value, decoded value], …]` (computed by the real latexcodec) -/
+def parseDecode (j : Json) : Except String (List (Str × Str)) :=
+  match j.getObjVal? "decode" with
+  | .error _ => pure []
+  | .ok d => do
+    (← d.getArr?).toList.mapM fun p => do
+      let a ← p.getArr?
+      pure ((← jsonToStr a[0]!), (← jsonToStr a[1]!))
+
+def parseItems (j : Json) (dec : List (Str × Str)) : Except String (List (Str × Item)) := do
+  (← getArr j "items").mapM fun it => do
     let key ← getStr it "key"
     let tmpl ← parseT 64 (← it.getObjVal? "template")
     let pts ← (← getArr it "person_templates").mapM fun r => do
       let a ← r.getArr?
       let ts ← (← (a[1]!).getArr?).toList.mapM (parseT 64)
       pure ((← jsonToStr a[0]!), ts)
-    pure (key, ({ template := tmpl, personTemplates := pts } : Item))
+    pure (key, ({ template := tmpl, personTemplates := pts, decode := dec } : Item))
+
+/-- the rendering of a formatted text through the four backends (`none` = `KeyError` for an unknown symbol) -/
+def rendersJ (t : RT) : Json :=
+  let r := fun (b : RT.Backend Str) => optJ strToJson (RT.render b t)
+  obj [("html", r Backends.html), ("markdown", r Backends.markdown),
+       ("latex", r (Backends.latex Backends.Latex.latexcodecEncode)), ("text", r Backends.plaintext)]
+
+/-- `style.format_bibliography(db, citations)` -/
+def pystyle (j : Json) : Except String Json := do
+  let es ← (← getArr j "entries").mapM C06.parseEntry
+  let dec ← parseDecode j
+  let items ← parseItems j dec
   let cites ← getStrList j "citations"
   let mc ← getInt j "min_crossrefs"
   let sorting ← parseSorting (← (← j.getObjVal? "sorting").getStr?)
   let labels ← parseLabels (← (← j.getObjVal? "labels").getStr?)
   let lookup := fun (k : Str) => (items.find? fun p => p.1 = k).map (·.2)
-  let r := formatBibliography (es.map toPEntry) lookup cites mc sorting labels
+  let pes := es.map toPEntry
+  let r := formatBibliography pes lookup cites mc sorting labels
   let reports := DbJson.reportsJ r.1
+  -- spec values for the oracle: the syntactic condition of C07_terminated for every serialised template, and the
+  -- BibTeX alpha base labels (before the suffix letters) of the entries in output order
+  let ends := arr (items.map fun p => arr [strToJson p.1, Json.bool (Spec.endsInSentence p.2.template)])
+  let sorted := sortEntries sorting (Spec.resolvedEntries pes cites mc)
+  let base : Json := match sorted.mapM formatLabel with
+    | none => Json.null
+    | some ls => arr ((sorted.zip ls).map fun p => arr [strToJson p.1.key, strToJson p.2])
+  let spec := obj [("ends_in_sentence", ends), ("alpha_base", base),
+    ("sort_keys", arr (sorted.map fun e =>
+      let k := sortingKey e
+      arr [strToJson e.key, strToJson k.1, strToJson k.2.1, strToJson k.2.2]))]
   match r.2 with
-  | .error e => pure (obj [("out", obj [("error", bibErrJ e), ("reports", reports)])])
+  | .error e => pure (obj [("out", obj [("error", bibErrJ e), ("reports", reports)]), ("spec", spec)])
   | .ok fs =>
     pure (obj [("out", obj [("reports", reports),
-      ("entries", arr (fs.map fun f => arr [strToJson f.key, strToJson f.label, C08.treeJ f.text]))])])
+      ("entries", arr (fs.map fun f => arr [strToJson f.key, strToJson f.label, C08.treeJ f.text])),
+      ("render", arr (fs.map fun f => rendersJ f.text))]), ("spec", spec)])
 
 /-- one template on one entry (evaluator alone) -/
 def tmpleval (j : Json) : Except String Json := do
@@ -84,10 +118,11 @@ def tmpleval (j : Json) : Except String Json := do
     let ts ← (← (a[1]!).getArr?).toList.mapM (parseT 64)
     pure ((← jsonToStr a[0]!), ts)
   let pes := es.map toPEntry
+  let dec ← parseDecode j
   match pes.find? fun e => e.key = key with
   | none => throw "no such entry"
   | some e =>
-    match eval evalFuel { entry := e.toEntry, db := some (mkDb pes), personTemplates := pts } tmpl with
+    match eval evalFuel { entry := e.toEntry, db := some (mkDb pes), personTemplates := pts, decode := dec } tmpl with
     | .error (.missing f) => pure (obj [("out", obj [("error", arr [Json.str "FieldIsMissing", strToJson f, strToJson key])])])
     | .error .unbalanced => pure (obj [("out", obj [("error", arr [Json.str "PybtexSyntaxError", strToJson key])])])
     | .error .outOfFuel => pure (obj [("out", obj [("error", arr [Json.str "OUT-OF-FUEL"])])])
